@@ -443,6 +443,15 @@ pub fn worker_check(state: &Json, ctx: &mut Ctx) {
                 ctx,
             );
         }
+        let settings = specs()[0].build();
+        crate::checks::c12::same_address_clause(
+            "C14",
+            state,
+            &reg,
+            seeds,
+            &|id, r, seed| guarded(|| rust_value_from_seed(id, r, &settings, seed, None, None).map(|t| t.to_string()).map_err(|e| format!("{e}"))),
+            ctx,
+        );
     }
 }
 
@@ -490,6 +499,9 @@ pub fn run(tier: &str, seed: u64) -> i32 {
 
 pub fn replay(v: &Json) -> Result<Vec<Violation>, String> {
     let mut ctx = Ctx::default();
+    if v["check"] == "C14-hist" && !v["prev"].is_null() {
+        worker_check(&v["prev"], &mut Ctx::default());
+    }
     worker_check(&v["state"], &mut ctx);
     Ok(ctx.violations)
 }
